@@ -33,6 +33,7 @@ var drivers = map[string]runner{
 	"C20": c20.Run,
 	"C01": conv.RunC01,
 	"C02": rt.RunC02,
+	"C04": rt.RunC04,
 	"C03": pipe.RunC03,
 	"C06": rt.RunC06,
 	"C19": rt.RunC19,
